@@ -445,10 +445,252 @@ def generate_emit():
     return emit("MarkupEmit", body, ["loguru/_handler.py", "loguru/_logger.py", "loguru/_colorizer.py"], errors)
 
 
+# ----------------------------------------------------------------------------- escape kernels, shared level table
+def _bool_fun(name, doc, expr):
+    return "/-- %s -/\ndef %s (colorize dynamic : Bool) : Bool := %s\n" % (doc, name, expr)
+
+
+def generate_share():
+    """Generated/MarkupShare.lean: (a) the escape arithmetic of `AnsiParser.feed` as expression kernels,
+    (b) `Handler.update_format`: its early-return guard as a Boolean function of (colorize, dynamic) and what it
+    stores, (c) `Handler.__init__`: under which flags it pre-colours the format for EVERY level of the table, and
+    that it keeps the table it was given (no copy), (d) `Logger.add` hands the core's own table to the handler,
+    (e) what `Core.__getstate__` / `Handler.__getstate__` drop from the pickled state."""
+    from extract_lib import Tr
+    errors = []
+    body = "namespace Markup.GenShare\n\n"
+    try:
+        ctree, _ = parse_module("_colorizer.py")
+        feed = _normalise(find_func(ctree, "feed", cls="AnsiParser"), ["self", "text"])
+
+        def len_call(tr, node):
+            if len(node.args) == 1 and not node.keywords and isinstance(node.args[0], (ast.Name, ast.Call, ast.Attribute)):
+                return ("n", "int")
+            raise Unsupported("len() argument")
+
+        tr = Tr({}, calls={"len": len_call})
+
+        def mentions_len(node):
+            return any(isinstance(n, ast.Call) and ast.unparse(n.func) == "len" for n in ast.walk(node))
+
+        # "\\" * (count // 2)
+        keeps = [n.right if isinstance(n.left, ast.Constant) else n.left for n in ast.walk(feed)
+                 if isinstance(n, ast.BinOp) and isinstance(n.op, ast.Mult)
+                 and ((isinstance(n.left, ast.Constant) and n.left.value == "\\") or
+                      (isinstance(n.right, ast.Constant) and n.right.value == "\\"))]
+        keeps = [k for k in keeps if mentions_len(k)]
+        if not keeps or len({ast.dump(k) for k in keeps}) != 1:
+            raise Unsupported("feed: the backslash-halving expression")
+        keep_src, keep_t = tr.tr(keeps[0])
+        Tr.need(keep_t, "int")
+        # `if <count is odd>: …; continue`  and  `if <count positive>: append(TEXT, backslashes)`
+        odd = [n for n in ast.walk(feed) if isinstance(n, ast.If) and mentions_len(n.test)
+               and any(isinstance(x, ast.Continue) for x in n.body)]
+        pos = [n for n in ast.walk(feed) if isinstance(n, ast.If) and mentions_len(n.test) and not n.orelse
+               and not any(isinstance(x, ast.Continue) for x in ast.walk(n))]
+        if len(odd) != 1 or len(pos) != 1:
+            raise Unsupported("feed: the odd / positive tests on the backslash count (%d, %d)" % (len(odd), len(pos)))
+        odd_src, t1 = tr.tr(odd[0].test)
+        pos_src, t2 = tr.tr(pos[0].test)
+        Tr.need(t1, "bool")
+        Tr.need(t2, "bool")
+        body += "/-- `\"\\\\\" * (escaping_count // 2)`: how many backslashes are printed for a run of `n` -/\n"
+        body += "def escKeep (n : Int) : Int := %s\n" % keep_src
+        body += "/-- `if escaping_count % 2 == 1`: the tag is literal text -/\n"
+        body += "def escLiteral (n : Int) : Bool := %s\n" % odd_src
+        body += "/-- `if escaping_count > 0`: a TEXT token with the kept backslashes is emitted before the tag -/\n"
+        body += "def escEmits (n : Int) : Bool := %s\n\n" % pos_src
+
+        htree, _ = parse_module("_handler.py")
+        flags = {"self._colorize": ("colorize", "bool"), "self._is_formatter_dynamic": ("dynamic", "bool"),
+                 "colorize": ("colorize", "bool"), "is_formatter_dynamic": ("dynamic", "bool")}
+        ftr = Tr(flags)
+
+        # (b) update_format
+        uf = _normalise(find_func(htree, "update_format", cls="Handler"), ["self", "level_id"])
+        stmts = [x for x in uf.body if not (isinstance(x, ast.Expr) and isinstance(x.value, ast.Constant))]
+        guard = None
+        rest = stmts
+        if stmts and isinstance(stmts[0], ast.If) and len(stmts[0].body) == 1 and isinstance(stmts[0].body[0], ast.Return) \
+                and stmts[0].body[0].value is None and not stmts[0].orelse:
+            guard = ftr.tr(stmts[0].test)
+            rest = stmts[1:]
+        elif len(stmts) == 1 and isinstance(stmts[0], ast.If) and not stmts[0].orelse:       # if <do>: store
+            g = ftr.tr(stmts[0].test)
+            guard = ("(!%s)" % g[0], g[1])
+            rest = stmts[0].body
+        if guard is None:
+            raise Unsupported("update_format: guard shape")
+        Tr.need(guard[1], "bool")
+        stores = [x for x in rest if isinstance(x, ast.Assign) and isinstance(x.targets[0], ast.Subscript)]
+        others = [x for x in rest if x not in stores and not (isinstance(x, ast.Assign) and isinstance(x.targets[0], ast.Name))]
+        if len(stores) != 1 or others:
+            raise Unsupported("update_format: body shape")
+        body += _bool_fun("updateSkips", "`Handler.update_format` returns without touching the cache when this holds", guard[0])
+        body += "/-- … otherwise it executes exactly this store (locals inlined) -/\n"
+        body += "def updateStores : List Char := %s\n\n" % lean_chars(ast.unparse(stores[0]))
+
+        # (c) __init__: path condition of `for n in self._levels_ansi_codes: self.update_format(n)`; the table is kept
+        init = find_func(htree, "__init__", cls="Handler")
+        loops = []
+
+        def walk(stmts, path):
+            for st in stmts:
+                if isinstance(st, ast.If):
+                    walk(st.body, path + [(st.test, True)])
+                    walk(st.orelse, path + [(st.test, False)])
+                elif isinstance(st, ast.For):
+                    it = ast.unparse(st.iter)
+                    if it in ("self._levels_ansi_codes", "levels_ansi_codes", "self._levels_ansi_codes.keys()",
+                              "levels_ansi_codes.keys()", "list(self._levels_ansi_codes)", "list(levels_ansi_codes)") \
+                            and isinstance(st.target, ast.Name) and len(st.body) == 1 and not st.orelse \
+                            and ast.unparse(st.body[0]) == "self.update_format(%s)" % st.target.id:
+                        loops.append(path)
+                    else:
+                        walk(st.body, path)
+                elif isinstance(st, (ast.With, ast.Try)):
+                    walk(st.body, path)
+
+        walk(init.body, [])
+        nupd = sum(1 for n in ast.walk(init) if isinstance(n, ast.Call) and ast.unparse(n.func) == "self.update_format")
+        if len(loops) != 1:
+            raise Unsupported("Handler.__init__: the loop pre-colouring every level (%d found)" % len(loops))
+        conj = []
+        for test, pol in loops[0]:
+            t, ty = ftr.tr(test)
+            Tr.need(ty, "bool")
+            conj.append(t if pol else "(!%s)" % t)
+        body += _bool_fun("initUpdates", "`Handler.__init__` calls `update_format` for EVERY level name of the table exactly when this holds",
+                          "(" + " && ".join(conj) + ")" if conj else "true")
+        body += "def initUpdateCalls : Nat := %d\n" % nupd
+        keeps_ref = [n for n in ast.walk(init) if isinstance(n, ast.Assign) and len(n.targets) == 1
+                     and ast.unparse(n.targets[0]) == "self._levels_ansi_codes"]
+        params = [a.arg for a in init.args.args + init.args.kwonlyargs]
+        body += "/-- `self._levels_ansi_codes = levels_ansi_codes`: the handler keeps the very table it is given -/\n"
+        body += "def handlerKeepsTableRef : Bool := %s\n\n" % (
+            "true" if (len(keeps_ref) == 1 and isinstance(keeps_ref[0].value, ast.Name) and keeps_ref[0].value.id in params
+                       and keeps_ref[0].value.id == "levels_ansi_codes") else "false")
+
+        # (d) Logger.add passes the core's own table
+        ltree, _ = parse_module("_logger.py")
+        add = _normalise(find_func(ltree, "add", cls="Logger"), [a.arg for a in find_func(ltree, "add", cls="Logger").args.args])
+        passed = []
+        for n in ast.walk(add):
+            if isinstance(n, ast.Call) and ast.unparse(n.func).split(".")[-1] == "Handler":
+                for k in n.keywords:
+                    if k.arg == "levels_ansi_codes":
+                        passed.append(ast.unparse(k.value))
+        if len(passed) != 1:
+            raise Unsupported("Logger.add: Handler(levels_ansi_codes=…)")
+        body += "/-- what `Logger.add` passes as `levels_ansi_codes` (locals inlined) -/\n"
+        body += "def addPassesTable : List Char := %s\n\n" % lean_chars(passed[0])
+
+        # (e) pickled state
+        def dropped(fn):
+            """every key of the state dict that `__getstate__` assigns (whatever the value), resolving loops over
+            literal tuples; any other way of changing the state (update/pop/del/comprehension, a non-literal key,
+            returning something else than the copied dict) is outside the subset: fail closed"""
+            out = []
+            stv = [ast.unparse(n.targets[0]) for n in ast.walk(fn) if isinstance(n, ast.Assign) and len(n.targets) == 1
+                   and isinstance(n.targets[0], ast.Name) and isinstance(n.value, ast.Call)
+                   and "__dict__" in ast.unparse(n.value)]
+            if len(stv) != 1:
+                raise Unsupported("%s: the state variable" % fn.name)
+            st = stv[0]
+            rets = [n for n in ast.walk(fn) if isinstance(n, ast.Return)]
+            if len(rets) != 1 or ast.unparse(rets[0].value) != st:
+                raise Unsupported("%s: returns something else than the copied __dict__" % fn.name)
+
+            def keys_of(node, env):
+                if isinstance(node, ast.Constant) and isinstance(node.value, str):
+                    return [node.value]
+                if isinstance(node, ast.Name) and node.id in env:
+                    return env[node.id]
+                raise Unsupported("%s: state key %s" % (fn.name, ast.unparse(node)))
+
+            def walk_st(stmts, env):
+                for x in stmts:
+                    if isinstance(x, ast.Assign):
+                        for t in x.targets:
+                            if isinstance(t, ast.Subscript) and ast.unparse(t.value) == st:
+                                out.extend(keys_of(t.slice, env))
+                            elif isinstance(t, ast.Name) and t.id == st and "__dict__" not in ast.unparse(x.value):
+                                raise Unsupported("%s: state re-bound" % fn.name)
+                    elif isinstance(x, ast.For):
+                        if isinstance(x.target, ast.Name) and isinstance(x.iter, (ast.Tuple, ast.List, ast.Set)) \
+                                and all(isinstance(e, ast.Constant) and isinstance(e.value, str) for e in x.iter.elts):
+                            walk_st(x.body, dict(env, **{x.target.id: [e.value for e in x.iter.elts]}))
+                        else:
+                            raise Unsupported("%s: loop %s" % (fn.name, ast.unparse(x.iter)))
+                    elif isinstance(x, ast.If):
+                        walk_st(x.body, env)
+                        walk_st(x.orelse, env)
+                    elif isinstance(x, (ast.With, ast.Try)):
+                        walk_st(x.body, env)
+                    elif isinstance(x, ast.Return) or (isinstance(x, ast.Expr) and isinstance(x.value, ast.Constant)):
+                        pass
+                    else:
+                        if st in {n.id for n in ast.walk(x) if isinstance(n, ast.Name)}:
+                            raise Unsupported("%s: statement touching the state: %s" % (fn.name, ast.unparse(x)[:60]))
+
+            walk_st(fn.body, {})
+            return sorted(set(out))
+
+        def dict_copy(fn):
+            return any(isinstance(n, ast.Call) and ast.unparse(n) in ("self.__dict__.copy()", "dict(self.__dict__)",
+                                                                      "copy.copy(self.__dict__)", "copy(self.__dict__)")
+                       for n in ast.walk(fn))
+
+        cg = find_func(ltree, "__getstate__", cls="Core")
+        hg = find_func(htree, "__getstate__", cls="Handler")
+        hs = find_func(htree, "__setstate__", cls="Handler")
+        body += "/-- keys `Core.__getstate__` overwrites in the (shallow) copy of `__dict__` -/\n"
+        body += "def coreStateDropped : List (List Char) := [%s]\n" % ", ".join(lean_chars(k) for k in dropped(cg))
+        body += "def coreStateIsDictCopy : Bool := %s\n" % ("true" if dict_copy(cg) else "false")
+        body += "def handlerStateDropped : List (List Char) := [%s]\n" % ", ".join(lean_chars(k) for k in dropped(hg))
+        body += "def handlerStateIsDictCopy : Bool := %s\n" % ("true" if dict_copy(hg) else "false")
+        def memo_sources(v):
+            """functions a value expression memoises afresh: `memoize(f)`, or `self.helper()` all of whose returns are
+            such calls (the place where `memoize(...)` is written does not matter)"""
+            if isinstance(v, ast.Call) and ast.unparse(v.func).split(".")[-1] == "memoize" and len(v.args) == 1:
+                return [ast.unparse(v.args[0])]
+            if isinstance(v, ast.Call) and isinstance(v.func, ast.Attribute) and isinstance(v.func.value, ast.Name) \
+                    and v.func.value.id == "self" and not v.args and not v.keywords:
+                try:
+                    helper = find_func(htree, v.func.attr, cls="Handler")
+                except Unsupported:
+                    return []
+                out = []
+                for r in ast.walk(helper):
+                    if isinstance(r, ast.Return):
+                        if r.value is None:
+                            return []
+                        got = memo_sources(r.value) if not (isinstance(r.value, ast.Call) and isinstance(r.value.func, ast.Attribute)
+                                                            and ast.unparse(r.value.func).startswith("self.")) else []
+                        if not got:
+                            return []
+                        out.extend(got)
+                return out
+            return []
+
+        memo = []
+        for n in ast.walk(hs):
+            if isinstance(n, ast.Assign) and ast.unparse(n.targets[0]) == "self._memoize_dynamic_format":
+                memo.extend(memo_sources(n.value))
+        memo = sorted(set(memo))
+        body += "/-- `__setstate__` starts every dynamic handler with a FRESH memo (functions it memoises) -/\n"
+        body += "def setstateFreshMemo : List (List Char) := [%s]\n" % ", ".join(lean_chars(m.split(".")[-1]) for m in sorted(memo))
+    except (Unsupported, SyntaxError, KeyError, AttributeError, IndexError, OSError) as e:
+        errors.append("%s: %s" % (type(e).__name__, e))
+    body += "\nend Markup.GenShare\n"
+    return emit("MarkupShare", body, ["loguru/_colorizer.py", "loguru/_handler.py", "loguru/_logger.py"], errors)
+
+
 _generate_tables = generate
 
 
 def generate():  # noqa: F811  (both files; each fails closed on its own)
     a = _generate_tables()
     b = generate_emit()
-    return a and b
+    c = generate_share()
+    return a and b and c
